@@ -1,11 +1,10 @@
+\* stand-alone -simulate run of the builder over the full (extended) vocabulary:
+\*   java -cp ... tlc2.TLC -deadlock -simulate num=100 -depth 13 -config ExprBuilder_sim.cfg MCExprBuilder.tla
 SPECIFICATION Spec
 CONSTANTS
-  MaxNodes = 12
-  MaxOps = 7
-  MaxLeaves = 5
-  Ops <- AllOps
-  LeafSet <- AllLeaves
+  Families <- SimFamilies
   EmitMin = 3
 INVARIANT ShapeSound
+INVARIANT IxSound
 CONSTRAINT EmitComplete
 CHECK_DEADLOCK FALSE
